@@ -222,4 +222,5 @@ func genC03(r *rng, tier string, emit func(string)) {
 		}
 		emit("eckeygen " + hx(rnd))
 	}
+	c03lGen(r, tier, emit) // limb-level field arithmetic against Model.P256Limbs
 }
